@@ -326,7 +326,7 @@ func TestC20Sweep(t *testing.T) {
 	t.Logf("swept %d cases (N=%d, %d implementations)", total, N, len(ims))
 }
 
-const ruleRapid = "rapid-drawn cases: lengths 0..5000 (biased to multiples of 8 +-1 and to 0..64), offsets 0..15, contents by seed (per buffer one of: pseudo-random, all zero, all 0xFF, random with runs of zero bytes, a three-letter alphabet, runs of 0xFF in zeroes), aliasing {none, dst==a, dst==b, and the same three with all slices cut from one allocation}, len(dst) in {n, n+1, n+17, n+random}; same oracle and implementations; non-trivial as in the sweep; distinct by hash of the parameters"
+const ruleRapid = "rapid-drawn cases: lengths 0..5000 (biased to multiples of 8 +-1 and to 0..64) and k*65536 +-1 for k = 1..3, offsets 0..15, contents by seed (per buffer one of: pseudo-random, all zero, all 0xFF, random with runs of zero bytes, a three-letter alphabet, runs of 0xFF in zeroes), aliasing {none, dst==a, dst==b, and the same three with all slices cut from one allocation}, len(dst) in {n, n+1, n+17, n+random}; same oracle and implementations; non-trivial as in the sweep; distinct by hash of the parameters"
 
 func TestC20Rapid(t *testing.T) {
 	r := ev.New("C20", "rapid", ruleRapid)
@@ -338,6 +338,10 @@ func TestC20Rapid(t *testing.T) {
 			return max(0, 8*rapid.IntRange(0, 600).Draw(t, "w")+rapid.IntRange(-1, 1).Draw(t, "d"))
 		}),
 		rapid.IntRange(0, 5000),
+		// around multiples of 64 KiB (chunked loops, 16-bit counters)
+		rapid.Custom(func(t *rapid.T) int {
+			return 65536*rapid.IntRange(1, 3).Draw(t, "k64") + rapid.IntRange(-1, 1).Draw(t, "d64")
+		}),
 	)
 	r.Check(t, func(t *rapid.T, c *ev.Case) {
 		im := ims[rapid.IntRange(0, len(ims)-1).Draw(t, "impl")]
